@@ -386,8 +386,8 @@ def guard_drop(fns, src, nmax, which='ArrayConsumer', name=None):
 
 
 @guarded
-def op_try_from_iter(fns, src, nmax, name=None):
-    """try_from_iter with a caller-supplied source that may panic in next() or size_hint() at every call"""
+def op_try_from_iter(fns, src, nmax, name=None, boxed=False):
+    """try_from_iter / try_boxed_from_iter with a caller-supplied source that may panic in next() or size_hint() at every call"""
     N, J, C, LO, HI = syms('N', 'J', 'count', 'hint_lo', 'hint_hi')
     res = Result(name or 'try_from_iter', ['C04', 'C07'], 'N <= %d, source yields count <= N+2 items, size_hint unconstrained, next()/size_hint() may panic at every call' % nmax)
     ex = Exec(fns, src, J, N, nmax=nmax + 2)
@@ -398,7 +398,9 @@ def op_try_from_iter(fns, src, nmax, name=None):
     has_hi = z3.Bool('hint_has_hi')
     src_it = {'kind': 'source', 'count': C, 'yielded': bv(0), 'ended': z3.BoolVal(False),
               'hint': {0: LO, 1: Enum('Some', {0: HI})}}
-    fn = ex.find_fn('GenericArray::<T, N>::try_from_iter')
+    fn = ex.find_fn('GenericArray::<T, N>::try_boxed_from_iter' if boxed else 'GenericArray::<T, N>::try_from_iter')
+    if fn is None:
+        raise NotImplementedError('function not found')
     t0, paths, unw = time.time(), 0, 0
     # Option<usize> upper bound: two runs (Some / None)
     for hi_variant in ('Some', 'None'):
@@ -409,9 +411,15 @@ def op_try_from_iter(fns, src, nmax, name=None):
             paths += 1
             unw += kind == 'unwind'
             inA = ULT(J, N)
+            for blk, owner in s2.blocks.items():
+                okb = (owner == 'freed') or (owner == 'boxed' and kind == 'ret' and val.variant == 'Ok')
+                ex.require(s2, z3.BoolVal(okb), 'heap block neither freed nor owned by the returned Box when the operation ends (leak)', 'end(%s)' % kind)
             if kind == 'ret':
                 if val.variant == 'Ok':
-                    ex.require(s2, z3.Implies(inA, ex.stat(s2, val.fields[0]) == LIVE), 'Ok array has a slot that is not initialised', 'end')
+                    oarr = val.fields[0]
+                    if isinstance(oarr, BoxVal):
+                        oarr = oarr.ptr.block.arr
+                    ex.require(s2, z3.Implies(inA, ex.stat(s2, oarr) == LIVE), 'Ok array has a slot that is not initialised', 'end')
                     ex.require(s2, C == N, 'Ok although the source did not yield exactly N items', 'end')
                     ex.ev_extern(s2, {})
                 else:
